@@ -7,6 +7,7 @@ package main
 import (
 	"go/types"
 	"os"
+	"strings"
 
 	"golang.org/x/tools/go/ssa"
 )
@@ -51,6 +52,11 @@ func init() {
 		return cell
 	}
 	r["os.Stdout"] = r["os.Stderr"]
+	r["net/http.htmlReplacer"] = func(i *Interp, g *ssa.Global) value {
+		cell := new(value)
+		*cell = &native{strings.NewReplacer("&", "&amp;", "<", "&lt;", ">", "&gt;", `"`, "&#34;", "'", "&#39;")}
+		return cell
+	}
 	r["math/bits.deBruijn64tab"] = nil // interpreted lazily below (array literal)
 }
 
